@@ -987,7 +987,7 @@ class _FuncAnalysis:
             # a total _missing_ (never returns None) makes the constructor total
             m = ci.methods["_missing_"]
             rets = [n for n in walk_local(m.node) if isinstance(n, ast.Return)]
-            if rets and not any(n.value is None or (isinstance(n.value, ast.Constant) and n.value.value is None) for n in rets) and isinstance(m.node.body[-1], ast.Return):
+            if rets and not any(n.value is None or (isinstance(n.value, ast.Constant) and n.value.value is None) for n in rets) and not self.mr.cfg_facts(m)[0].falls_off_end():
                 ok = f"{ci.name}._missing_ never returns None"
         at = self.typ(arg)
         if ok is None and at and any(x.name == ci.name for x in self.classes_of_type(at)):
